@@ -286,6 +286,39 @@ func c01Run(w *core.W) {
 			}
 		}
 	}
+	// F7: one value used twice. A container produced by every kind of expression (literal, concatenation, concatenation
+	// of a concatenation, slice, slice of a concatenation, call result, loop-built, 40 elements) is the operand of two
+	// further operations in turn; the source, both results and the source again are then read. Whatever spare room the
+	// first operation's operand carries, the second operation must not see or disturb the first one's result.
+	w.Family("F7-one-value-two-uses")
+	{
+		defs := []string{"id = (x) -> x", "sq = (n) -> {\n  r = []\n  for i <- fromto(0, n) r = r + [i]\n  r\n}"}
+		arrSrc := []string{"[1, 2, 3]", "[1, 2, 3] + [4]", "[1, 2] + [3] + [4]", "[1, 2, 3, 4][0:3]", "([1, 2, 3] + [4, 5])[0:4]",
+			"([1, 2, 3] + [4, 5])[1:3]", "id([1, 2] + [3])", "sq(5)", "sq(40)", "sq(33) + [1]", "[] + []", "[[1], [2]] + [[3]]"}
+		arrUse := []string{"b + [5]", "b + [6]", "b + [7, 8]", "b[0:2]", "b[0:2] + [9]", "b[1:#b] + [9]", "[0] + b", "b + b", "b + []"}
+		strSrc := []string{"\"abc\"", "\"ab\" + \"c\"", "(\"ab\" + \"cd\")[0:3]", "toa(123) + \"4\""}
+		strUse := []string{"b + \"x\"", "b + \"y\"", "b[0:2]", "b[0:2] + \"z\"", "\"w\" + b", "b + b"}
+		run := func(srcs, uses []string) bool {
+			for _, e := range srcs {
+				for _, d1 := range uses {
+					for _, d2 := range uses {
+						top := append(append([]string{}, defs...), "b = "+e, "l = "+d1, "r = "+d2, "[b, l, r]", "l = "+d2, "[b, l, r]")
+						fn := append(append([]string{}, defs...), "f = () -> {\n  b = "+e+"\n  l = "+d1+"\n  r = "+d2+"\n  [b, l, r]\n}", "f()", "f()")
+						for _, st := range [][]string{top, fn} {
+							runSession(w, st, opt)
+							if w.Expired("time budget reached inside family") {
+								return false
+							}
+						}
+					}
+				}
+			}
+			return true
+		}
+		if !run(arrSrc, arrUse) || !run(strSrc, strUse) {
+			return
+		}
+	}
 	// F2: statement-position product
 	w.Family("F2-statement-position")
 	lv := 1
